@@ -7,6 +7,14 @@
    an ENTROPY assignment: one value per entropy site (iteration order chosen by
    the interpreter for a set - a function of the hash seed and of object
    addresses, hence of the process history -, clock, pid, id(), hash(), ...).
+   The ENVIRONMENT of the process is part of the entropy: a site of kind
+   E_fs_cwd is a file-system access whose path is resolved against the current
+   working directory (its value: what the lookup finds there - nothing, or the
+   bytes of a same-named file), E_env_read an environment variable / user /
+   terminal / time-zone read, E_locale a byte<->text conversion or date
+   rendering that follows the locale.  Two runs of the same request from two
+   directories, under two environments or locales, are two runs with entropy
+   assignments that differ at those sites.
 
    Executable model only, no proofs (they are in Proofs/History.v).  The
    generated tables live in Generated/Survivors.v and have the types below. *)
@@ -21,7 +29,7 @@ Inductive skind :=
 
 Inductive ekind :=
 | E_set_iteration | E_set_pop | E_set_repr | E_random | E_time | E_pid | E_id
-| E_hash | E_fs_order | E_env_read | E_network.
+| E_hash | E_fs_order | E_env_read | E_network | E_fs_cwd | E_locale.
 
 (* one row of the survivors table *)
 Record surv := mk_surv {
@@ -147,6 +155,27 @@ Definition good_sites : list esite :=
 
 Definition order_run (st : state nat) (e : entropy nat) (i : nat) : nat * state nat :=
   (i + e "for x in s", st).
+
+(* BAD environment: a data file is first looked up "as given", i.e. in the
+   current working directory; the entropy value of the site is what that lookup
+   finds: 0 = no such file (fall back to the package table), n+1 = a same-named
+   file whose parameter is n *)
+Definition cwd_sites : list esite :=
+  [ mk_esite "Path('AMBER.DAT').is_file()" E_fs_cwd false true ].
+Definition cwd_table : list surv := [ mk_surv "table" K_module_container false true ].
+
+Definition cwd_run (st : state nat) (e : entropy nat) (i : nat) : nat * state nat :=
+  (match e "Path('AMBER.DAT').is_file()" with
+   | 0 => i + st "table"
+   | S decoy => i + decoy
+   end, st).
+
+(* GOOD environment: the side file is WRITTEN into the working directory (its
+   location follows the cwd) but nothing on the way to the output reads the site *)
+Definition env_good_sites : list esite :=
+  [ mk_esite "sorted(s)" E_set_iteration true true;
+    mk_esite "open(stem + '-input.p', 'wb')" E_fs_cwd false false;
+    mk_esite "open(AA.xml) without encoding" E_locale false false ].
 
 Arguments Run {Val EVal Input}.
 Arguments Crash {Val EVal Input}.
